@@ -169,6 +169,35 @@ theorem thub_uses (xs : List α) (n k : Nat) :
   simp [specRun, specStep, specSrc, srcSeq] at this ⊢
   exact this
 
+/-- **C03.3d** a thub among several arguments (`Stream(pre, hub, post)`, `s.append(pre, hub, post)`)
+gives one of its uses to that call, at the call: of the `k` requests that follow, the first `n - 1`
+succeed, the others raise IndexError; with no use left it is the call itself that raises.  (The
+real `it.chain(*args)` asks the hub for its iterator only when the chain gets there: finding D16.) -/
+theorem thub_uses_mixed (xs pre post : List α) (n k : Nat) :
+    ∃ F, ∀ f, F ≤ f → run f St.empty
+        (.thub (.list xs) n :: .new (.mixed pre 0 post) :: List.replicate k (.new (.obj 0))) =
+      some (.new 0) :: some (if 0 < n then Obs.new 1 else .err "IndexError") :: (List.range k).map
+        (fun j => some (if j + 1 < n then Obs.new (if 0 < n then 2 + j else 1 + j) else .err "IndexError")) := by
+  obtain ⟨F, h⟩ := run_refines (α := α)
+    (.thub (.list xs) n :: .new (.mixed pre 0 post) :: List.replicate k (.new (.obj 0)))
+    (fun op hop => by
+      rcases List.mem_cons.1 hop with rfl | hop
+      · trivial
+      rcases List.mem_cons.1 hop with rfl | hop
+      · trivial
+      · rw [List.eq_of_mem_replicate hop]; trivial)
+  refine ⟨F, fun f hf => ?_⟩
+  rw [h f hf]
+  cases n with
+  | zero =>
+    have := specRun_uses (⟨xs, []⟩ : LSeq α) k 0 []
+    simp [specRun, specStep, specSrc, srcSeq] at this ⊢
+    exact this
+  | succ m =>
+    have := specRun_uses (⟨xs, []⟩ : LSeq α) k m [.stream (((LSeq.fin pre).append ⟨xs, []⟩).append (LSeq.fin post))]
+    simp [specRun, specStep, specSrc, srcSeq] at this ⊢
+    rw [this]
+
 /-- **C03.3b** `thub` of a non-iterable is that object: nothing is created, the object comes back. -/
 theorem thub_noniter (f : Nat) (st : St α) (v : α) (n : Nat) :
     step f st (.thub (.const v) n) = some (st, .const v) := rfl
@@ -274,6 +303,11 @@ example : run 10 (St.empty : St Int)
     [.thub (.list [4, 5]) 2, .new (.obj 0), .new (.obj 0), .new (.obj 0), .drain 2, .take 1 (.int 1), .drain 1]
     = [some (.new 0), some (.new 1), some (.new 2), some (.err "IndexError"), some (.items [4, 5]),
        some (.items [4]), some (.items [5])] := by decide
+/-- a thub with one use among several arguments: the call takes the use, the next request fails,
+    the stream yields the three parts -/
+example : run 10 (St.empty : St Int)
+    [.thub (.list [1, 2]) 1, .new (.mixed [0] 0 [3]), .new (.obj 0), .drain 1]
+    = [some (.new 0), some (.new 1), some (.err "IndexError"), some (.items [0, 1, 2, 3])] := by decide
 /-- periodic source through the model and the spec -/
 example : run 10 (St.empty : St Int) [.new (.cyc [1, 2, 3]), .take 0 (.int 5), .skip 0 (.int 2), .take 0 (.int 2)]
     = [some (.new 0), some (.items [1, 2, 3, 1, 2]), some .unit, some (.items [2, 3])] := by decide
